@@ -95,18 +95,18 @@ Qed.
 (* ------------------------------------------------------------------ the gate *)
 (* table level: a route whose first action is the authenticator does nothing
    else when the authenticator rejects, whatever the request *)
-Lemma rejected_route c a r ss q st :
+Lemma rejected_route c a x r ss q st :
   auth_outcome a = AR_rej st -> auth_required c (pkce_on c a) r = true ->
-  run_route c a r ss q = (st, [], true).
+  run_route c a x r ss q = (st, [], true).
 Proof.
   intros Ea Hg. apply auth_required_iff in Hg. unfold run_route, run_route_gen.
   unfold gate_of in Hg. rewrite Hg, Ea. reflexivity.
 Qed.
 
 (* routes that do not authenticate never run RPC / control code for a rejected caller *)
-Lemma open_route_work c a r ss q s0 st w cs :
+Lemma open_route_work c a x r ss q s0 st w cs :
   auth_outcome a = AR_rej s0 -> auth_required c (pkce_on c a) r = false ->
-  run_route c a r ss q = (st, w, cs) -> wsubset w (open_work r) = true.
+  run_route c a x r ss q = (st, w, cs) -> wsubset w (open_work r) = true.
 Proof.
   intros Ea Hg. unfold auth_required in Hg. unfold run_route, run_route_gen. fold gate_of.
   destruct (gate_of c (pkce_on c a) r) eqn:Eg; try discriminate Hg.
@@ -121,34 +121,54 @@ Proof.
 Qed.
 
 (* ------------------------------------------------------------------ main *)
+Lemma bkind_beq_refl k : bkind_beq k k = true.
+Proof. destruct k; reflexivity. Qed.
+
 Theorem spec_ok_model i : spec_ok i (model i) = true.
 Proof.
-  destruct i as [c a q]. unfold spec_ok, model, serve, serve_gen.
+  destruct i as [c a x q]. unfold spec_ok, model, serve, serve_gen.
   destruct (auth_outcome a) as [|s0] eqn:Ea; [reflexivity|].
   destruct (parse_path (q_path q)) as [[ss tr]|].
   2:{ destruct (is_options (q_meth q)); reflexivity. }
   destruct (is_options (q_meth q)) eqn:Eo; [reflexivity|].
   destruct (dispatch c (pkce_on c a) (q_meth q) ss tr) as [r| |] eqn:Ed; [|reflexivity|reflexivity].
   apply dispatch_registered in Ed. destruct (pattern_names_route _ _ _ Ed) as [Hne Hrt].
-  fold (run_route c a r ss q). destruct (run_route c a r ss q) as [[st w] cs] eqn:Er.
-  cbn [o_pat o_status o_work o_consulted].
+  fold (run_route c a x r ss q). destruct (run_route c a x r ss q) as [[st w] cs] eqn:Er.
+  cbn [o_pat o_status o_work o_consulted o_body].
   destruct (pat_str (route_pat c r)) as [|b s] eqn:Ep; [congruence|].
   rewrite Hrt. destruct (auth_required c (pkce_on c a) r) eqn:Eg.
-  - rewrite (rejected_route c a r ss q s0 Ea Eg) in Er. inversion Er. subst.
-    rewrite N.eqb_refl. reflexivity.
+  - rewrite (rejected_route c a x r ss q s0 Ea Eg) in Er. inversion Er. subst.
+    apply auth_required_iff in Eg. unfold gate_of in Eg. rewrite Eg.
+    rewrite N.eqb_refl, bkind_beq_refl. reflexivity.
   - eapply open_route_work; eauto.
 Qed.
 
-Lemma rejected_request c a q r st :
+Lemma rejected_request c a x q r st :
   auth_outcome a = AR_rej st -> routed c a q = Some r -> auth_required c (pkce_on c a) r = true ->
-  o_work (serve c a q) = [] /\ o_status (serve c a q) = st /\ o_consulted (serve c a q) = true.
+  o_work (serve c a x q) = [] /\ o_status (serve c a x q) = st /\ o_consulted (serve c a x q) = true
+  /\ o_body (serve c a x q) = Some (bk_of st).
 Proof.
   intros Ea Hr Hg. unfold routed in Hr. unfold serve, serve_gen.
   destruct (is_options (q_meth q)); [discriminate|].
   destruct (parse_path (q_path q)) as [[ss tr]|]; [|discriminate].
   destruct (dispatch c (pkce_on c a) (q_meth q) ss tr) as [r'| |]; try discriminate.
-  inversion Hr. subst r'. fold (run_route c a r ss q).
-  rewrite (rejected_route c a r ss q st Ea Hg). cbn. auto.
+  inversion Hr. subst r'. fold (run_route c a x r ss q).
+  rewrite (rejected_route c a x r ss q st Ea Hg). cbn [o_work o_status o_consulted o_body].
+  apply auth_required_iff in Hg. unfold gate_of in Hg. rewrite Hg, Ea. auto.
+Qed.
+
+(* the verdict is a function of the error component only: the context the
+   callback returned along with its error changes nothing on a gated route *)
+Lemma context_irrelevant c a x x' q r st :
+  auth_outcome a = AR_rej st -> routed c a q = Some r -> auth_required c (pkce_on c a) r = true ->
+  serve c a x q = serve c a x' q.
+Proof.
+  intros Ea Hr Hg. unfold routed in Hr. unfold serve, serve_gen.
+  destruct (is_options (q_meth q)); [discriminate|].
+  destruct (parse_path (q_path q)) as [[ss tr]|]; [|discriminate].
+  destruct (dispatch c (pkce_on c a) (q_meth q) ss tr) as [r'| |]; try discriminate.
+  inversion Hr. subst r'. fold (run_route c a x r ss q). fold (run_route c a x' r ss q).
+  rewrite (rejected_route c a x r ss q st Ea Hg), (rejected_route c a x' r ss q st Ea Hg). reflexivity.
 Qed.
 
 Lemma routed_registered c a q r : routed c a q = Some r -> In r (registered c (pkce_on c a)).
@@ -182,9 +202,9 @@ Qed.
 Lemma is_options_true m : is_options m = true <-> m = M_OPTIONS.
 Proof. destruct m; cbn; split; congruence. Qed.
 
-Lemma unauthenticated_reach c a q st :
+Lemma unauthenticated_reach c a x q st :
   auth_outcome a = AR_rej st ->
-  let o := serve c a q in
+  let o := serve c a x q in
   (o_work o = [] /\ o_status o = st /\ o_consulted o = true)
   \/ (q_meth q = M_OPTIONS /\ o_status o = 204 /\ o_work o = [] /\ o_consulted o = false)
   \/ (q_meth q <> M_OPTIONS /\ routed c a q = None /\ o_work o = [] /\ o_consulted o = false
@@ -201,14 +221,14 @@ Proof.
   - assert (Hm : q_meth q <> M_OPTIONS) by (intro E; apply is_options_true in E; congruence).
     destruct (routed c a q) as [r|] eqn:Er.
     + destruct (auth_required c (pkce_on c a) r) eqn:Eg.
-      * left. eapply rejected_request; eauto.
+      * left. destruct (rejected_request c a x q r st Ea Er Eg) as [H1 [H2 [H3 _]]]. auto.
       * right. right. right. exists r. pose proof (routed_registered _ _ _ _ Er) as Hin.
         repeat split; auto. { now apply ungated_open with (pk := pkce_on c a). }
         revert Er. unfold routed, serve, serve_gen. rewrite Eo.
         destruct (parse_path (q_path q)) as [[ss tr]|]; [|discriminate].
         destruct (dispatch c (pkce_on c a) (q_meth q) ss tr) as [r'| |]; try discriminate.
-        intro H. inversion H. subst r'. fold (run_route c a r ss q).
-        destruct (run_route c a r ss q) as [[s1 w1] c1] eqn:Err. cbn [o_work].
+        intro H. inversion H. subst r'. fold (run_route c a x r ss q).
+        destruct (run_route c a x r ss q) as [[s1 w1] c1] eqn:Err. cbn [o_work].
         apply wsubset_In. eapply open_route_work; eauto.
     + right. right. left. revert Er. unfold routed, serve, serve_gen. rewrite Eo.
       destruct (parse_path (q_path q)) as [[ss tr]|].
@@ -230,7 +250,7 @@ Definition class_witness (k : rclass) : request :=
   | _ => rq M_GET (str "/health")
   end.
 Definition witness_ok (k : rclass) : bool :=
-  let o := serve (cfgm 2047) A_fail (class_witness k) in
+  let o := serve (cfgm 2047) A_fail CX_alice (class_witness k) in
   match routed (cfgm 2047) A_fail (class_witness k) with
   | Some r => rclass_beq (route_class r) k && negb (o_consulted o) && negb (o_status o =? 401)
   | None => false
@@ -244,7 +264,7 @@ Proof. split; [apply internal_rclass_dec_bl | apply internal_rclass_dec_lb]. Qed
 Lemma open_classes_reachable k :
   In k open_classes ->
   exists c q r, routed c A_fail q = Some r /\ route_class r = k
-                /\ o_consulted (serve c A_fail q) = false /\ o_status (serve c A_fail q) <> 401.
+                /\ o_consulted (serve c A_fail CX_alice q) = false /\ o_status (serve c A_fail CX_alice q) <> 401.
 Proof.
   intro Hk. pose proof witnesses_ok as H. rewrite forallb_forall in H. specialize (H k Hk).
   unfold witness_ok in H. exists (cfgm 2047), (class_witness k).
@@ -269,16 +289,16 @@ Proof. reflexivity. Qed.
 
 (* ------------------------------------------------------------------ before fix 92a19ba *)
 Definition legacy_witness : input :=
-  Probe (cfgm 2047) A_fail
+  Probe (cfgm 2047) A_fail CX_nil
     {| q_meth := M_POST; q_path := str "/vgi/__upload_url__/init"; q_ctype := CT_arrow;
        q_body := B_req c22_upload_seg; q_sess := S_none; q_html := false |}.
 
 Lemma legacy_refuted :
   exists c a q, rejecting a = true /\ routed c a q = Some R_upload
                 /\ auth_required c (pkce_on c a) R_upload = true
-                /\ In W_provider (o_work (serve_gen true c a q))
-                /\ o_status (serve_gen true c a q) = 200
-                /\ spec_ok (Probe c a q) (model_legacy (Probe c a q)) = false.
+                /\ In W_provider (o_work (serve_gen true c a CX_nil q))
+                /\ o_status (serve_gen true c a CX_nil q) = 200
+                /\ spec_ok (Probe c a CX_nil q) (model_legacy (Probe c a CX_nil q)) = false.
 Proof.
   exists (cfgm 2047), A_fail,
     {| q_meth := M_POST; q_path := str "/vgi/__upload_url__/init"; q_ctype := CT_arrow;
